@@ -187,6 +187,13 @@ def index_form(d, bv: tuple):
         return ("range", ZERO, length_of(T)), subscript(T, bv)
     if isinstance(d, tuple) and d and d[0] == "dom":
         return index_form(d[1], bv)
+    if isinstance(d, tuple) and d and d[0] in ("items", "values") and len(d) == 2:
+        T = d[1]
+        if isinstance(T, tuple) and T and T[0] == "dom":
+            return d, bv
+        key = subscript(T, bv)
+        val = subscript(T, key)
+        return ("range", ZERO, length_of(T)), (atom_poly(("tuple", (key, val))) if d[0] == "items" else val)
     if isinstance(d, tuple) and d and d[0] == "zip" and len(d) >= 3:
         # zip(A, B, ..) of equally long sequences: index loop over the first with element (A[i], B[i], ..)
         parts = [index_form(x, bv) for x in d[1:]]
@@ -604,7 +611,7 @@ class Translator:
         return mk_bool(type(n.op).__name__, tuple(self.tr(v) for v in n.values))
 
     def t_IfExp(self, n):
-        return atom_poly(("ifexp", self.tr(n.test), self.tr(n.body), self.tr(n.orelse)))
+        return mk_ifexp(self.tr(n.test), self.tr(n.body), self.tr(n.orelse))
 
     # --- calls
     def t_Call(self, n):
@@ -710,6 +717,9 @@ class Translator:
             return ("zip",) + tuple(self.domain(a) for a in it.args)
         if isinstance(it, ast.Call) and isinstance(it.func, ast.Attribute) and it.func.attr == "keys" and not it.args:
             return self.domain(it.func.value)  # iterating d.keys() is iterating d
+        if isinstance(it, ast.Call) and isinstance(it.func, ast.Attribute) and it.func.attr in ("items", "values") and not it.args and not it.keywords:
+            # for k, v in d.items()  =  for k in d: v = d[k]
+            return (it.func.attr, norm_iter(self.tr(it.func.value)))
         return ("iter", norm_iter(self.tr(it)))
 
     def domain_elem(self, it: ast.AST, level: int):
@@ -969,6 +979,22 @@ def mk_bool(op: str, values) -> tuple:
     return bool_canon(atom_poly(("bool", op, values)))
 
 
+def mk_ifexp(c: tuple, a: tuple, b: tuple) -> tuple:
+    """a if c else b, with the condition oriented canonically: `x if not c else y` = `y if c else x`."""
+    if a == b:
+        return a
+    ca = single_atom(c)
+    if ca is not None and ca[0] == "boolconst":
+        return a if ca[1] else b
+    nc = mk_not(c)
+    _, sign = _literal(c)
+    ca = single_atom(c)
+    compound = ca is not None and ca[0] == "bool"
+    if (not compound and not sign) or (compound and _key(nc) < _key(c)):
+        c, a, b = nc, b, a
+    return atom_poly(("ifexp", c, a, b))
+
+
 def exclusive(c1, c2) -> bool:
     """The condition lists (conjunctions) c1 and c2 cannot hold together (propositionally)."""
     both = mk_bool("And", tuple(c1) + tuple(c2))
@@ -1193,6 +1219,8 @@ def canon_atom(at: tuple, depth: int) -> tuple:
         return mk_bool(at[1], tuple(canon(y, depth) for y in at[2]))
     if at[0] == "not" and len(at) == 2:
         return mk_not(canon(at[1], depth))
+    if at[0] == "ifexp" and len(at) == 4:
+        return mk_ifexp(canon(at[1], depth), canon(at[2], depth), canon(at[3], depth))
     return atom_poly((at[0],) + tuple(canon(y, depth) for y in at[1:]))
 
 
